@@ -807,6 +807,22 @@ fn judge_macro(j: &mut Judge, d: &Drv, from: usize, start_tick: u64, m: &Macro, 
             None => (class.to_string(), what),
         }
     };
+    if r.unexplained > 0 && evict_ok && with_uni {
+        // An evicted macro's custom item may never be delivered while its keys are released at
+        // once: read the key steps alone; a clean cut with clean-up is then the eviction class.
+        let exp2 = strip_uni(&m.exp.steps);
+        let obs2 = project(&d.sim, from, m, false);
+        let r2 = read_projection(&obs2, &exp2, m.exp.trailing_delay, start_tick);
+        if r2.unexplained == 0 && (r2.k > 0 || r2.tail > 0 || r2.runs == 0) && r2.open.is_empty() {
+            j.out.inc("evicted_macros");
+            j.out.violate(
+                "C08:evicted:concurrent-macros>4",
+                format!("a macro that was running when a 5th one started stopped after {} of {} key steps; its keys were released", r2.k, exp2.len()),
+                j.witness(d, m, &obs2, &exp2, extra.clone()),
+            );
+            return "evicted";
+        }
+    }
     if r.unexplained > 0 {
         let (class, what) = problem_or("order", "projection does not follow the body".into());
         j.out.violate(format!("C08:{class}"), format!("{}: {what}", m.variant.name), j.witness(d, m, &obs, &exp_steps, extra));
@@ -814,12 +830,21 @@ fn judge_macro(j: &mut Judge, d: &Drv, from: usize, start_tick: u64, m: &Macro, 
     }
     // here: obs = head (r.runs complete runs + r.k steps) ++ tail (clean-up releases of all open keys)
     let is_cut = r.k > 0 || r.tail > 0;
-    if evict_ok && r.tail == 0 && (r.k > 0 || r.runs == 0) {
-        // stopped without any clean-up while more than 4 macros were running
+    if evict_ok && !ex.cut_ok && (r.k > 0 || r.tail > 0 || r.runs == 0) {
+        // cut short while more than 4 macros were running: the documented limit of four
+        // simultaneous macros (known finding). Its keys must nevertheless be released.
         j.out.inc("evicted_macros");
+        if r.tail == 0 && !r.open.is_empty() {
+            j.out.violate(
+                "C08:evicted:keys-left-down",
+                format!("a macro that was running when a 5th one started stopped after {} of {} steps and left [{}] down", r.k, exp_steps.len(), r.open.join(",")),
+                j.witness(d, m, &obs, &exp_steps, extra),
+            );
+            return "bad";
+        }
         j.out.violate(
             "C08:evicted:concurrent-macros>4",
-            format!("a macro that was running when a 5th one started stopped after {} of {} steps; left down: [{}]", r.k, exp_steps.len(), r.open.join(",")),
+            format!("a macro that was running when a 5th one started stopped after {} of {} steps; its keys were released", r.k, exp_steps.len()),
             j.witness(d, m, &obs, &exp_steps, extra),
         );
         return "evicted";
